@@ -250,7 +250,7 @@ def extract_fn(relpath: str, container: str, name: str, cfgs=None) -> Extracted:
     nb = ATTR_RE.sub('', body)
     if nb != body:
         ex.log.append(('R8', 'erased #[inline]/#[allow]/#[instrument] attributes'))
-    ex.body = nb
+    ex.body = normalize_continue(nb, ex.log)
     ex.log.append(('R0', 'comments and doc comments erased'))
     return ex
 
@@ -271,3 +271,95 @@ def extract_item(relpath: str, pattern: str) -> str:
     if src[j] == '{':
         j = match_brace(src, j)
     return src[i:j + 1]
+
+
+# ------------------------------------------------------------------------------------------------
+# R3: `continue` inside `for` bodies (Verus: "for-loops do not yet support continue")
+#     if C { S; continue; } REST      ==>      if C { S; /*continue*/ } else { REST }
+# applied to top-level statements of every `for` body, repeatedly; anything else containing
+# `continue` is left alone (and makes the unit fail to build -> undecided).
+# ------------------------------------------------------------------------------------------------
+def _split_stmts(block: str):
+    """split the inside of a `{...}` block into top-level statements (text chunks, order preserved)"""
+    out, depth, start, i, n = [], 0, 0, 0, len(block)
+    while i < n:
+        c = block[i]
+        if c == '"':
+            i += 1
+            while i < n and block[i] != '"':
+                i += 2 if block[i] == '\\' else 1
+        elif c == "'":
+            m = re.match(r"'(\\.[^']*|[^\\'])'", block[i:])
+            if m:
+                i += len(m.group(0)) - 1
+        elif c in '([{':
+            depth += 1
+        elif c in ')]}':
+            depth -= 1
+            if c == '}' and depth == 0:
+                head = block[start:i].lstrip()
+                blocklike = re.match(r"(if|match|for|while|loop|unsafe|\{|'\w+\s*:)", head) is not None
+                rest = block[i + 1:].lstrip()
+                if blocklike and not re.match(r'(else\b|\.|\?|;|\)|,|==|&&|\|\|)', rest):
+                    out.append(block[start:i + 1])
+                    start = i + 1
+        elif c == ';' and depth == 0:
+            out.append(block[start:i + 1])
+            start = i + 1
+        i += 1
+    if block[start:].strip():
+        out.append(block[start:])
+    return out
+
+
+def _r3_block(inner: str, log: list) -> str:
+    stmts = _split_stmts(inner)
+    for k, st in enumerate(stmts):
+        s = st.strip()
+        m = re.match(r'if\b', s)
+        if not m or not re.search(r'continue\s*;\s*\}\s*$', s):
+            continue
+        # locate the if's block: the last top-level `{...}`; no `else` allowed
+        ob = None
+        j = 0
+        depth = 0
+        while j < len(s):
+            if s[j] in '([':
+                j = match_brace(s, j)
+            elif s[j] == '{':
+                ob = j
+                j = match_brace(s, j)
+                break
+            j += 1
+        if ob is None or s[j + 1:].strip():
+            continue
+        blk = s[ob + 1:j]
+        blk2 = re.sub(r'continue\s*;\s*$', '/*continue*/ ', blk)
+        rest = _r3_block(''.join(stmts[k + 1:]), log)
+        log.append(('R3', 'if C { ..; continue; } REST  ->  if C { .. } else { REST }'))
+        return ''.join(stmts[:k]) + '\n' + s[:ob] + '{' + blk2 + '} else {' + rest + '}\n'
+    return inner
+
+
+def normalize_continue(body: str, log: list) -> str:
+    """apply R3 to every `for` loop body in the function body"""
+    out = body
+    pos = 0
+    while True:
+        m = re.search(r'\bfor\b[^{;]*?\bin\b', out[pos:])
+        if not m:
+            return out
+        i = pos + m.end()
+        # find the loop's opening brace
+        while i < len(out) and out[i] != '{':
+            if out[i] in '([':
+                i = match_brace(out, i)
+            i += 1
+        if i >= len(out):
+            return out
+        j = match_brace(out, i)
+        inner = out[i + 1:j]
+        if 'continue' in inner:
+            new_inner = _r3_block(inner, log)
+            out = out[:i + 1] + new_inner + out[j:]
+        pos = i + 1
